@@ -35,6 +35,7 @@ type ldoc struct {
 	PW    float64
 	PHs   []float64 // page heights
 	pages [][]lline // top-down order on each page
+	gran  []byte    // fragment granularity per page: 'L' one fragment per line (default), 'W' per word, 'C' per glyph
 	rep   int       // cache of hasRepetition: 0 unknown, 1 yes, -1 no
 }
 
@@ -133,10 +134,19 @@ func (d *ldoc) mayDelete(l lline) bool {
 func (d *ldoc) hasRepetition() bool {
 	if d.rep == 0 {
 		d.rep = -1
+	scan:
 		for _, l := range d.all() {
 			if d.repeated(l) {
 				d.rep = 1
 				break
+			}
+			if d.granOf(l.page) != 'L' {
+				for _, pc := range d.pieces(l) {
+					if !blank(pc.text) && d.pieceRepeated(l, pc) {
+						d.rep = 1
+						break scan
+					}
+				}
 			}
 		}
 	}
@@ -461,7 +471,7 @@ func (d *ldoc) expectations(mode string, req map[int]bool) map[string]*expect {
 		}
 		e := m[l.text]
 		if e == nil {
-			e = &expect{class: l.class}
+			e = &expect{class: d.label(l)}
 			m[l.text] = e
 		}
 		e.n++
@@ -471,13 +481,13 @@ func (d *ldoc) expectations(mode string, req map[int]bool) map[string]*expect {
 		}
 		if may {
 			e.may++
-			e.mayClass, e.maySide = l.class, d.side(l)
+			e.mayClass, e.maySide = d.label(l), d.side(l)
 		} else {
 			w := d.whyNot(l)
 			if e.why != "" && e.why != w {
 				w = "deleted-unrepeated-line" // same text inside the band on one page and in the body on others
 			}
-			e.why, e.class = w, l.class
+			e.why, e.class = w, d.label(l)
 		}
 		if must {
 			e.must++
@@ -505,4 +515,181 @@ func joinSorted(set map[string]bool) string {
 		return "-"
 	}
 	return strings.Join(s, "+")
+}
+
+// ---- fragment granularity -------------------------------------------------------------------------
+
+// granKinds: per-page fragment granularity of a document. "line" is the plain default of the whole product; the
+// others form their own sub-space: uniform word-level / character-level documents, exactly one character-level
+// (word-level) page among line-level ones, and the reverse.
+var granKinds = []string{"word", "char", "char1", "line1", "word1", "linew1"}
+
+func (d *ldoc) setGran(name string) {
+	d.gran = make([]byte, d.P)
+	for p := range d.gran {
+		first := p == 0
+		switch name {
+		case "word":
+			d.gran[p] = 'W'
+		case "char":
+			d.gran[p] = 'C'
+		case "char1": // page 1 character-level, the others line-level
+			d.gran[p] = pick(first, 'C', 'L')
+		case "line1": // page 1 line-level, the others character-level
+			d.gran[p] = pick(first, 'L', 'C')
+		case "word1":
+			d.gran[p] = pick(first, 'W', 'L')
+		case "linew1":
+			d.gran[p] = pick(first, 'L', 'W')
+		default:
+			d.gran[p] = 'L'
+		}
+	}
+}
+
+func pick(c bool, a, b byte) byte {
+	if c {
+		return a
+	}
+	return b
+}
+
+func (d *ldoc) granOf(page int) byte {
+	if d.gran == nil {
+		return 'L'
+	}
+	return d.gran[page]
+}
+
+// label is the class used in signatures: lines on word-/character-level pages are labelled by the page kind only,
+// so that a defect bound to such pages has one signature and anything else on normal pages stays visible next to it.
+func (d *ldoc) label(l lline) string {
+	switch d.granOf(l.page) {
+	case 'C':
+		return "on-char-level-page"
+	case 'W':
+		return "on-word-level-page"
+	}
+	return l.class
+}
+
+// Helvetica advance widths (AFM, 1/1000 em) of the characters the generator uses.
+var helv = map[rune]float64{' ': 278, '-': 333, '.': 278, '/': 278, '+': 584, ':': 278,
+	'A': 667, 'B': 667, 'C': 722, 'D': 722, 'E': 667, 'F': 611, 'G': 778, 'H': 722, 'I': 278, 'J': 500, 'K': 667, 'L': 556, 'M': 833,
+	'N': 722, 'O': 778, 'P': 667, 'Q': 778, 'R': 722, 'S': 667, 'T': 611, 'U': 722, 'V': 667, 'W': 944, 'X': 667, 'Y': 667, 'Z': 611,
+	'a': 556, 'b': 556, 'c': 500, 'd': 556, 'e': 556, 'f': 278, 'g': 556, 'h': 556, 'i': 222, 'j': 222, 'k': 500, 'l': 222, 'm': 833,
+	'n': 556, 'o': 556, 'p': 556, 'q': 556, 'r': 333, 's': 500, 't': 278, 'u': 556, 'v': 500, 'w': 722, 'x': 500, 'y': 500, 'z': 500}
+
+func advance(r rune, size float64) float64 {
+	if r >= '0' && r <= '9' {
+		return 556 * size / 1000
+	}
+	w, ok := helv[r]
+	if !ok {
+		panic("no Helvetica width for " + string(r))
+	}
+	return w * size / 1000
+}
+
+func textWidth(s string, size float64) float64 {
+	w := 0.0
+	for _, r := range s {
+		w += advance(r, size)
+	}
+	return w
+}
+
+// piece is one shown string of a line: the whole line, a word with its trailing space, or one glyph (spaces included).
+type piece struct {
+	text string
+	x    float64
+}
+
+func (d *ldoc) pieces(l lline) []piece { return piecesAs(l, d.granOf(l.page)) }
+
+func piecesAs(l lline, g byte) []piece {
+	switch g {
+	case 'W', 'C':
+		var o []piece
+		x, start, word := l.x, l.x, ""
+		rs := []rune(l.text)
+		for i, r := range rs {
+			if g == 'C' {
+				o = append(o, piece{string(r), x})
+			}
+			word += string(r)
+			x += advance(r, l.h)
+			if r == ' ' || i == len(rs)-1 {
+				if g == 'W' {
+					o = append(o, piece{word, start})
+				}
+				word, start = "", x
+			}
+		}
+		return o
+	}
+	return []piece{{l.text, l.x}}
+}
+
+func blank(s string) bool { return strings.TrimSpace(s) == "" }
+
+// pieceRepeated: clause 2 read per fragment - the fragment's digit-normalized text occurs at that position on another
+// page. The other page's lines are cut the same way as the fragment's own page (lenient: a word of a word-level page
+// also "occurs" on a line-level page whose line has that word at that place).
+func (d *ldoc) pieceRepeated(l lline, pc piece) bool {
+	s := d.side(l)
+	if s == "" {
+		return false
+	}
+	n := normDigits(strings.TrimSpace(pc.text))
+	for _, o := range d.all() {
+		if o.page == l.page || d.side(o) != s || absf(d.edgeDist(o, s)-d.edgeDist(l, s)) > posTolY {
+			continue
+		}
+		for _, q := range piecesAs(o, d.granOf(l.page)) {
+			if normDigits(strings.TrimSpace(q.text)) == n && absf(q.x-pc.x) <= posTolX {
+				return true
+			}
+		}
+	}
+	return false
+}
+
+// mayDeletePiece is clause 2 for one fragment of a line. On line-level pages it is the line rule.
+func (d *ldoc) mayDeletePiece(l lline, pc piece) bool {
+	if d.granOf(l.page) == 'L' {
+		return d.mayDelete(l)
+	}
+	if !d.hasRepetition() || d.side(l) == "" {
+		return false
+	}
+	return isPagePattern(pc.text) || d.pieceRepeated(l, pc)
+}
+
+// wordMay says for every word of the line whether exclusion may delete it: on a line-level page the line rule, on a
+// word-level page the word's own fragment, on a character-level page all glyph fragments of the word.
+func (d *ldoc) wordMay(l lline) []bool {
+	words := strings.Fields(l.text)
+	o := make([]bool, len(words))
+	g := d.granOf(l.page)
+	if g == 'L' {
+		m := d.mayDelete(l)
+		for i := range o {
+			o[i] = m
+		}
+		return o
+	}
+	for i := range o {
+		o[i] = true
+	}
+	w := 0
+	for _, pc := range piecesAs(l, g) {
+		if !blank(pc.text) && !d.mayDeletePiece(l, pc) {
+			o[w] = false
+		}
+		if strings.HasSuffix(pc.text, " ") {
+			w++
+		}
+	}
+	return o
 }
